@@ -63,6 +63,9 @@ def coerce_to(v: V, t: T) -> V:
         return fresh(t, "as_opaque")  # contents are not tracked behind an opaque type
     if isinstance(t, TTuple) and isinstance(v.t, TTuple) and len(t.items) == len(v.t.items):
         return mk_tuple(t, [coerce_to(tuple_get(v, i), it).z for i, it in enumerate(t.items)])
+    if isinstance(t, TList) and isinstance(v.t, TTuple) and not v.t.items:
+        # the empty tuple where a sequence is expected (records hold sequences as lists): the empty sequence
+        return mk_list(t, z3.IntVal(0), fresh(TMap(INT, t.elem), "empty").z)
     if isinstance(t, TList) and isinstance(v.t, TList) and t.elem == REAL and v.t.elem == INT:
         # list[int] used where list[float] expected: element-wise conversion is not expressible as a term;
         raise Unsupported(f"list[int] -> list[float] coercion")
